@@ -589,7 +589,12 @@ class nx_action_bundle (of.ofp_action_vendor_base):
     if self.fields != other.fields: return False
     if self.basis != other.basis: return False
     if self.slave_type != other.slave_type: return False
-    if self.slaves != other.slaves: return False
+    # Slaves may be given as plain values or as nxm_entries of slave_type;
+    # on the wire (and after unpacking) they are entries.  Compare as such.
+    def entries (b):
+      return [s if isinstance(s, nxm_entry) else b.slave_type(s)
+              for s in b.slaves]
+    if entries(self) != entries(other): return False
     if self.nbits != other.nbits: return False
     if self.offset != other.offset: return False
     if self.dst != other.dst: return False
